@@ -227,6 +227,21 @@ def shard(m, items, inputs=()):
                 m.add('transitions')
                 if got_nc[0] != got[0] or (got[0] == 'ok' and got_nc != got):
                     m.violation(f'cut-changes-accepted-result/{name}', grammar=gtxt, input=t, with_cuts=got, without_cuts=got_nc)
+        # the cut semantics do not depend on memoization settings: short inputs again under two settings
+        for t in inputs:
+            if len(t) > 4:
+                continue
+            try:
+                want = ref.parse(t, start='start')
+            except Undecided:
+                continue
+            for sname, st in (('memo-off', {'memoization': False}), ('prune-off', {'prune_memos_on_cut': False})):
+                got = impl.parse(model, t, **st)
+                m.add('evaluations')
+                m.add('transitions')
+                ok = (want[0] == 'fail' and got[0] == 'fail') or (want[0] == 'ok' and got[0] == 'ok' and got[1] == {'v': want[1], 'rest': t[want[2]:]})
+                if not ok:
+                    m.violation(f'cut-semantics-depend-on-setting/{sname}/{name}', grammar=gtxt, input=t, settings=st, got=got, want=want)
         if pruned:
             m.add('programs_with_pruning_input')
             m.note('contexts_pruned', name)
